@@ -17,7 +17,7 @@ RULE = ('Evaluation = one stage boundary (quiescent point after find_slices / fi
 ASSUMPTIONS = ['the chunk emptied by the crop (known finding D8, decided by C08) is not generated here']
 REQUIRED = ['single_valid_hit', 'all_nan', 'group_split_in_2', 'group_split_in_3', 'gt100_slices',
             'msa_crop_active', 'groups_fewer_than_slices', 'gt100_slices_with_split',
-            'nonunique_index_labels_with_crop', 'gt10_groups_two_splits', 'range_index_not_from_0_with_crop', 'slices_multiple_of_100_with_split']
+            'nonunique_index_labels_with_crop', 'gt10_groups_two_splits', 'range_index_not_from_0_with_crop', 'slices_multiple_of_100_with_split', 'checked_concat_with_crop']
 SIZES = {'quick': dict(generic=330, bimodal=60, many=4), 'thorough': dict(generic=9000, bimodal=1500, many=40)}
 
 
@@ -26,7 +26,7 @@ def plan(tier, seed):
     out = []
     for i in range(z['generic']):
         out.append({'fam': 'generic', 's': seed, 'p': NUM, 'i': i,
-                    'k': {'big': i % 9 == 0, 'index': ['concat', 'range_offset', 'range_desc'][(i // 4) % 3] if i % 4 == 1 else None, 'anom': i % 3 == 2}})
+                    'k': {'big': i % 9 == 0, 'index': ['concat', 'range_offset', 'range_desc', 'checked_concat'][(i // 4) % 4] if i % 4 == 1 else None, 'anom': i % 3 == 2}})
     for i in range(z['bimodal']):
         out.append({'fam': 'bimodal', 's': seed, 'p': NUM, 'i': 100000 + i,
                     'k': {'third': i % 2 == 0, 'nce': 1 + i % 2, 'lookback': 100, 'bins': 0,
@@ -100,6 +100,8 @@ def check(desc):
         tags.add('slices_multiple_of_100')
         if (ch.groups['ncomp'] > 1).any():
             tags.add('slices_multiple_of_100_with_split')
+    if case['scene'].get('assemble') == 'checked_concat' and 'msa_crop_active' in tags:
+        tags.add('checked_concat_with_crop')
     if case['scene'].get('index_kind') == 'range' and 'msa_crop_active' in tags:
         tags.add('range_index_not_from_0_with_crop')
     if 'gt100_slices' in tags and any(t.startswith('group_split_in') for t in tags):
